@@ -4,7 +4,7 @@ import evm_common
 
 ID = "C08"
 PROPERTIES_V = ["theories/Properties/C08.v"]
-MAKE_TARGETS = ["theories/Properties/C08.vo", "theories/Model/BridgeCases.vo"]
+MAKE_TARGETS = ["theories/Properties/C08.vo", "theories/Proofs/GenAgreeTree.vo", "theories/Model/BridgeCases.vo"]
 HARNESS = "bridge"
 HARNESS_ARGS = ["-prop", "c08"]
 CASES_IMPORTS = bc.IMPORTS
@@ -40,4 +40,6 @@ def extra_checks(chk):
 LEVEL_TEXT = ('Kernel-checked for all trees: from well-formedness of the node table alone, whenever the path lookups succeed, CalculateRoot(leaf reached, siblings) = root (walk_calc); with the closed-store invariant (maintained by appends, insert-ignore) every covered index of every recorded version yields the true leaf and a verifying proof (proof_verifies); for the updatable tree sverify covers every position of every closed version; C08_contract_accepts_served_proof: a deposit contract (Solidity transcription) that received the same first k leaves accepts the served proof of every j < k against its own root, in every reachable store state. Per run the proofs of the real aggkit tree are also handed to the deployed bridge bytecode (verifyMerkleProof / calculateRoot, served and tampered).')
 LEVEL_NOTE = ("Trusted: Coq kernel + vm_compute; Gallina Keccak (cross-checked); hand transcription of AddLeaf/initCache/Bridge.Hash and of the "
               "Solidity DepositContract; SQLite; the theorems that read stored nodes assume an injective node hash (stated hypothesis).")
-TECHNIQUE = "Coq proof by induction over tree height (frontier invariant) + differential correspondence via vm_compute"
+TECHNIQUE = ("Coq proof by induction over tree height (frontier invariant); the hashing loop of AddLeaf and CalculateRoot are TRANSLATED from the Go "
+             "source on every run (tools/go2coq -> Gen/GenAppendOnlyTree.v, Gen/GenTree.v) and proved equal to the model; differential "
+             "correspondence via vm_compute for the store, the processor and the contract")
